@@ -759,6 +759,85 @@ const SPECS: &[Spec] = &[
                that comment); the four `RoaDeltaError::add_*` calls, `Routes::add` / `update_comment`, `max_length_valid`, \
                `is_held_by(all_resources)` and the three event constructors are parameter functions.",
     },
+    Spec {
+        id: "C12",
+        file: "src/server/ca/certauth.rs",
+        ty: "CertAuth",
+        method: "verify_rfc6492",
+        lean: "CertAuth.verify_rfc6492",
+        sig: "&self,cms:ProvisioningCms->KrillResult<provisioning::Message>",
+        binders: "{H C M ε : Type} (sender : H) (get_child : H → Except ε C) (validate : C → Except ε Unit) (message : M) (wrap_err : ε → ε)",
+        args: "sender get_child validate message wrap_err",
+        ret: "Except ε M",
+        num: Num::Nat,
+        names: &[
+            ("cms.message().sender().convert()", "sender"),
+            ("self.get_child(&child_handle)", "(get_child child_handle)"),
+            ("cms.validate(&child.id_cert.public_key)", "(validate child)"),
+            ("cms.into_message()", "message"),
+        ],
+        methods: &[],
+        state_ty: &[],
+        elem_ty: "",
+        enums: &[],
+        structs: &[],
+        types: &[],
+        opaque_lets: &[],
+        effects: &[],
+        wrapper: None,
+        cond_effects: &[],
+        tail: None,
+        note: "handles `H`, child records `C`, messages `M`, errors `ε` are abstract: `sender` is the sender handle INSIDE the \
+               CMS message, `get_child` the look-up in THIS CA's child table, `validate child` the signature check of the CMS \
+               object against `child.id_cert.public_key`, `message` the content of the CMS object; the two `map_err` closures \
+               (error texts) are `wrap_err`.",
+    },
+    Spec {
+        id: "C12",
+        file: "src/server/ca/manager.rs",
+        ty: "CaManager",
+        method: "rfc6492",
+        lean: "CaManager.rfc6492",
+        sig: "&self,ca_handle:&CaHandle,msg_bytes:Bytes,user_agent:Option<String>,actor:&Actor,krill:&KrillRuntime->KrillResult<Bytes>",
+        binders: "{H CA Q M B ε : Type} [DecidableEq H] (ca_handle ta_name : H) (err_ta_remote : ε) (get_ca : H → Except ε CA) \
+                  (validate : CA → Except ε Q) (process : H → Q → Except ε M) (is_list : M → Bool) (sign : CA → M → Except ε B) \
+                  (log_received : Except ε Unit) (log_reply : B → Except ε Unit) (log_err : ε → Except ε Unit)",
+        args: "ca_handle ta_name err_ta_remote get_ca validate process is_list sign log_received log_reply log_err",
+        ret: "Except ε B",
+        num: Num::Nat,
+        names: &[
+            ("ca_handle.as_str()", "ca_handle"),
+            ("TA_NAME", "ta_name"),
+            ("Error::custom(\"RemoteRFC6492toTAisnotsupported\",)", "err_ta_remote"),
+            ("self.get_ca(ca_handle)", "(get_ca ca_handle)"),
+            ("self.rfc6492_validate_request(&ca,&msg_bytes)", "(validate ca)"),
+            ("self.rfc6492_process_request(ca_handle,req_msg,user_agent,actor,krill)", "(process ca_handle req_msg)"),
+            ("msg.is_list_response()", "(is_list msg)"),
+            ("ca.sign_rfc6492_response(msg,krill.signer())", "(sign ca msg)"),
+            ("cms_logger.received(&msg_bytes)", "log_received"),
+            ("cms_logger.reply(&reply_bytes)", "(log_reply reply_bytes)"),
+            ("cms_logger.err(&e)", "(log_err e)"),
+        ],
+        methods: &[],
+        state_ty: &[],
+        elem_ty: "",
+        enums: &[],
+        structs: &[],
+        types: &[],
+        opaque_lets: &[(
+            "cms_logger",
+            "CmsLogger::for_rfc6492_rcvd(krill.config().rfc6492_log_dir.as_ref(),req_msg.recipient(),req_msg.sender(),)",
+        )],
+        effects: &[],
+        wrapper: None,
+        cond_effects: &[],
+        tail: None,
+        note: "handles `H`, CAs `CA`, the validated request `Q`, the unsigned reply `M` (both `provisioning::Message` in Rust), reply bytes `B`, errors `ε` are abstract: `get_ca` loads the CA NAMED IN \
+               THE REQUEST URI, `validate ca` is `rfc6492_validate_request` (decode + `verify_rfc6492` against that CA's child \
+               table), `process h m` is `rfc6492_process_request` for CA `h` and the validated message, `sign ca m` signs the \
+               reply with that CA's identity key; the CMS logger (an audit directory on disk) only appears through its three \
+               fallible calls.",
+    },
 ];
 
 type R = Result<String, String>;
@@ -934,6 +1013,9 @@ impl<'a> Tr<'a> {
                         self.atom(&m.receiver, ind)?,
                         self.atom(a, ind)?
                     )),
+                    // `r.map_err(|e| …)`: which error a refusal carries is outside the translation - the closure is
+                    // the parameter `wrap_err : ε → ε` of the generated definition
+                    ("map_err", [syn::Expr::Closure(_)]) => Ok(format!("(Except.mapError wrap_err {})", self.atom(&m.receiver, ind)?)),
                     ("is_none", []) => Ok(format!("{}.isNone", self.atom(&m.receiver, ind)?)),
                     ("is_some", []) => Ok(format!("{}.isSome", self.atom(&m.receiver, ind)?)),
                     _ => Err(format!("method call `{c}` (not in the method map)")),
